@@ -154,6 +154,15 @@ def run(ctx):
             if round(np.linalg.det(Pm)) < 0:
                 Pm[:, 0] *= -1
             v = (np.array(v) @ Pm).tolist()
+        elif rng.random() < .3:         # general orientation AND shape: any right-handed integer matrix with all nine components free
+            while True:
+                M = rng.integers(-6, 7, (3, 3)) * G
+                dM = round(np.linalg.det(M.astype(float)))
+                if abs(dM) >= G ** 3 * 8:
+                    break
+            if dM < 0:
+                M[2] = -M[2]
+            v = M.tolist()
         lam = v[0][1] == 0 and v[0][2] == 0 and v[1][2] == 0 and v[0][0] > 0 and v[1][1] > 0 and v[2][2] > 0
         o = [int(x) * 2 for x in rng.integers(-20, 21, 3)] if rng.random() < .6 else [0, 0, 0]
         V = np.array(v)
